@@ -37,13 +37,27 @@ class Ctx:
         return getattr(fi_or_mod, "path", "")
 
     def ob(self, rule, construct, ok, message="", fi=None, line=0, nontrivial=True, witness=None,
-           mod=None):
+           mod=None, alias_exact=False):
         file = ""
         if fi is not None:
             file = self.file_of(fi)
             line = line or fi.lineno
         elif mod is not None:
             file = self.file_of(mod)
+        if not ok and fi is not None and not alias_exact:
+            try:
+                al = fi.alias_stores()
+            except Exception:
+                al = []
+            if al:
+                # the function mutates an object through a second reference to it; the value graph does not carry
+                # such a store to the other reference, so what looks like a violation here may be that loss of
+                # precision: no claim either way (a violation needs a positive witness)
+                ln_, nm_, src_ = al[0]
+                self.rep.note(f"{construct}: not decided -- {fi.qualname} stores through '{nm_}' (line {ln_}), a second "
+                              f"reference to {src_}; aliasing stores are not modelled [{rule}: {message[:120]}]")
+                self.rep.count("undecided_alias")
+                return True
         return self.rep.ob(rule, construct, ok, message, file, line, nontrivial, witness)
 
 
